@@ -7,12 +7,30 @@ import (
 	"github.com/xjslang/xjs/sourcemap"
 )
 
-func cleanEmptyLines(code string) string {
-	lines := strings.Split(strings.TrimSpace(code), "\n")
+// cleanEmptyLines trims the text and removes trailing spaces from its lines,
+// except where a line ends inside one of the given literal ranges (byte
+// offsets into code): white space inside a multi-line literal is content.
+func cleanEmptyLines(code string, literalRanges [][2]int) string {
+	trimmed := strings.TrimSpace(code)
+	offset := strings.Index(code, trimmed) // start of the current line within code
+	lines := strings.Split(trimmed, "\n")
 	for i, line := range lines {
-		lines[i] = strings.TrimRight(line, " ")
+		lineEnd := offset + len(line)
+		if !insideRange(literalRanges, lineEnd) {
+			lines[i] = strings.TrimRight(line, " ")
+		}
+		offset = lineEnd + 1
 	}
 	return strings.Join(lines, "\n")
+}
+
+func insideRange(ranges [][2]int, pos int) bool {
+	for _, r := range ranges {
+		if r[0] <= pos && pos < r[1] {
+			return true
+		}
+	}
+	return false
 }
 
 type CompileResult struct {
@@ -100,7 +118,7 @@ func (c *Compiler) Compile(program *ast.Program) CompileResult {
 	// TODO: maybe it won't necessary to "clean" the result
 	code := w.String()
 	if c.prettyPrint {
-		code = cleanEmptyLines(code)
+		code = cleanEmptyLines(code, w.LiteralRanges())
 	}
 
 	var sm *sourcemap.SourceMap
